@@ -10,7 +10,8 @@ PROPS["C17"] = P(
     "every Ok of a fault-free or not-reached run has len() and ALL pairs checked; a panic is a violation; more rewinds than the bound (duplicates: allowed passes + 6; otherwise 20000 for n <= 5000, 200 above) is `no-progress`. "
     "Extra duplicate strata: a rank sweep (the n keys followed by key #j again, one build for EVERY j of a 4200-key function and a 2100-key filter, so that the duplicated pair takes every rank of the signature-sorted shard in every attempt) and duplicates in 100000/200000-key sets (2/4 shards) with max_num_threads 1/2 (more shards than solver threads; a build that never returns is reported through the 300 s hang limit). Nothing is generated or judged for duplicates without check_dups. "
     "distinct_nontrivial = number of distinct (variant | lender | next-pass-p-position-class or rewind-k | how the retry was forced | n class | store) cells in which the injected fault was really delivered "
-    "(Stats.fired recorded by the lender) or, for fault-free duplicate plans, the duplicate was refused",
+    "(Stats.fired recorded by the lender) or, for fault-free duplicate plans, the duplicate was refused"
+    ' A repeated key is judged even when the planned read fault is never reached; heavily repeated keys in sharded builds (dup:x700/x1500/x3000) and key sets with hardly any distinct key (most shards empty, fewer threads than shards); multi-shard duplicate builds may take up to 60 passes. ',
     dict(builds=["DBG", "UBC"]),
     dict(builds=["DBG", "UBC"]),
     hang="violation",
